@@ -165,7 +165,7 @@ theorem epoch_nesting_lock (c : Cfg) (o : Orders) (s s' : State) (t i ch : Nat) 
     have hd : ¬ s.lt i + lockDepthStep = lockPublishDepth := by
       simp [lockDepthStep, lockPublishDepth]; omega
     simp only [hd, if_false]
-    exact ⟨by simp, Mem.read_hist hread, rfl, rfl, by simp [lockDepthStep]⟩
+    refine ⟨?_, ?_, ?_, ?_, ?_⟩ <;> simp [Mem.read_hist hread, lockDepthStep]
 
 /-- an `unlock` at depth `≥ 2` likewise -/
 theorem epoch_nesting_unlock (c : Cfg) (o : Orders) (s s' : State) (t i ch : Nat) (l : Label)
@@ -180,7 +180,7 @@ theorem epoch_nesting_unlock (c : Cfg) (o : Orders) (s s' : State) (t i ch : Nat
     cases hstep
     have hd : ¬ s.lt i = unlockClearDepth := by simp [unlockClearDepth]; omega
     simp only [hd, if_false]
-    exact ⟨by simp, Mem.read_hist hread, rfl, rfl, by simp [unlockDepthStep]⟩
+    refine ⟨?_, ?_, ?_, ?_, ?_⟩ <;> simp [Mem.read_hist hread, unlockDepthStep]
 
 /-- **epoch_released_never_holds.**  A slot with no open region — unlocked Accessor, released
 Accessor (free slot), never allocated slot — holds `UINT64_MAX` as its latest version, and every
@@ -261,10 +261,12 @@ reads the latest message) — what VRT replays; a special case of the view theor
 theorem epoch_safety_sc (c : Cfg) (o : Orders) (hbs : 0 < c.bs) (ho : o.Safe) (s : State)
     (hr : Reachable (· = State.init c) (StepSC c o) s)
     (e i : Nat) (V : View Loc) (hrecl : s.recl e = true) (hfv : s.fv i = some V) : s.pv e ≤ V := by
-  apply epoch_safety_view c o hbs ho s _ e i V hrecl hfv
-  induction hr with
-  | base h => exact Reachable.base h
-  | tail _ hst ih => exact Reachable.tail ih (stepSC_step hst)
+  have key : ∀ s, Reachable (· = State.init c) (StepSC c o) s → Reach c o s := by
+    intro s hr
+    induction hr with
+    | base h => exact Reachable.base h
+    | tail _ hst ih => exact Reachable.tail ih (stepSC_step hst)
+  exact epoch_safety_view c o hbs ho s (key s hr) e i V hrecl hfv
 
 /-! ### Negative controls: what a weakened order turns the theorem into -/
 
